@@ -7,7 +7,7 @@ import ast
 
 from ..cfg import CFG
 from ..astutil import inside
-from ..core import AnalysisError, const_value, walk_own
+from ..core import callee_is, AnalysisError, const_value, walk_own
 from ..events import container_events, root_name
 from ..paths import path_variants, return_cases, var_leaves
 from ..defuse import DefUse, Terms, show, walk_term
@@ -572,7 +572,7 @@ def _make(ctx, f):
               "prefix, enzyme and reverse reach _shuffle_proteins",
               f"{show(DEC, 200) if DEC else None}", node=f.node)
     opens = [n for n in ast.walk(f.node) if isinstance(n, ast.Call)
-             and ast.unparse(n.func) == "open"]
+             and callee_is(prog, f, n, "open")]
     ok_o = len(opens) == 1 and str(const_value(
         opens[0].args[1] if len(opens[0].args) > 1 else None, "r"))[0] == "w"
     ctx.check(ok_o, "C18c-output-truncated", f,
